@@ -1076,6 +1076,13 @@ namespace BitSerializer::MsgPack::Detail
 		, mSerializationOptions(serializationOptions)
 	{ }
 
+	void CMsgPackStreamReader::SetPosition(size_t pos)
+	{
+		if (!mBinaryStreamReader.SetPosition(pos)) {
+			throw std::invalid_argument("Internal error: position is out of range of input data");
+		}
+	}
+
 	ValueType CMsgPackStreamReader::ReadValueType()
 	{
 		if (const auto byteCode = mBinaryStreamReader.PeekByte())
